@@ -260,6 +260,45 @@ fn mbtiles_extreme_values(a: &[String]) -> Result<bool> {
 	match r { Ok(_) => Ok(false), Err(_) => Ok(true) }
 }
 
+// C03/C16: a PMTiles file with ONE directory entry (tile_id, run_length) — every tile id of the run must lie inside the advertised coverage
+async fn pmtiles_run_coverage(a: &[String]) -> Result<bool> {
+	use versatiles_container::verif_hooks_pmtiles::tile_id_to_coord;
+	let tile_id: u64 = arg(a, 0); let run: u64 = arg(a, 1);
+	fn varint(mut v: u64, out: &mut Vec<u8>) { loop { let b = (v & 0x7f) as u8; v >>= 7; if v == 0 { out.push(b); break; } else { out.push(b | 0x80); } } }
+	let mut d: Vec<u8> = Vec::new();
+	varint(1, &mut d); varint(tile_id, &mut d); varint(run, &mut d); varint(1, &mut d); varint(1, &mut d);   // 1 entry: id, run, length 1, offset code 1 (= offset 0)
+	let n = d.len() as u64;
+	let mut f: Vec<u8> = Vec::new();
+	f.extend(b"PMTiles"); f.push(3);
+	let put64 = |f: &mut Vec<u8>, v: u64| f.extend(v.to_le_bytes());
+	put64(&mut f, 127); put64(&mut f, n);          // root dir
+	put64(&mut f, 127 + n); put64(&mut f, 2);      // metadata "{}"
+	put64(&mut f, 129 + n); put64(&mut f, 0);      // leaf dirs (none)
+	put64(&mut f, 129 + n); put64(&mut f, 1);      // tile data: one byte
+	put64(&mut f, 0); put64(&mut f, 0); put64(&mut f, 0);
+	f.push(0); f.push(1); f.push(1); f.push(1); f.push(0); f.push(0);
+	for _ in 0..4 { f.extend(0i32.to_le_bytes()); }
+	f.push(0); f.extend(0i32.to_le_bytes()); f.extend(0i32.to_le_bytes());
+	assert_eq!(f.len(), 127);
+	f.extend(&d); f.extend(b"{}"); f.push(0x2a);
+	let reader = versatiles_core::io::DataReaderBlob::from(Blob::from(f));
+	let r = versatiles_container::PMTilesReader::open_reader(Box::new(reader)).await?;
+	use versatiles_core::types::TilesReaderTrait;
+	let pyramid = r.get_parameters().bbox_pyramid.clone();
+	for id in tile_id..tile_id + run {
+		let c = tile_id_to_coord(id)?;
+		if !pyramid.contains_coord(&c) { println!("tile id {id} = {c:?} of the run ({tile_id}, {run}) is outside the advertised coverage {pyramid:?}"); return Ok(true); }
+	}
+	Ok(false)
+}
+fn print_tile_ids(a: &[String]) -> Result<bool> {
+	use versatiles_container::verif_hooks_pmtiles::tile_id_to_coord;
+	let n: u64 = arg(a, 0);
+	for id in 0..n { let c = tile_id_to_coord(id)?; print!("({}, {}, {}), ", c.z, c.x, c.y); }
+	println!();
+	Ok(false)
+}
+
 fn main() -> Result<()> {
 	let args: Vec<String> = std::env::args().skip(1).collect();
 	if args.is_empty() { eprintln!("usage: verif_replay <case> args…"); std::process::exit(2); }
@@ -276,6 +315,8 @@ fn main() -> Result<()> {
 			"versatiles_short_tile_index" => rt.block_on(versatiles_short_tile_index(rest)),
 			"pmtiles_entry_offset_overflow" => rt.block_on(pmtiles_entry_offset_overflow(rest)),
 			"svarint_roundtrip" => svarint_roundtrip(rest),
+			"pmtiles_run_coverage" => rt.block_on(pmtiles_run_coverage(rest)),
+			"print_tile_ids" => print_tile_ids(rest),
 			"mbtiles_extreme_values" => mbtiles_extreme_values(rest),
 			"pbf_length_prefix" => pbf_length_prefix(rest),
 			"vector_tile_from_bytes" => vector_tile_from_bytes(rest),
